@@ -489,6 +489,9 @@ func c09Worker(args []string) int {
 func c09dWorker(args []string) int {
 	maxDepth, _ := strconv.Atoi(args[0])
 	fireAt, _ := strconv.ParseInt(args[1], 10, 64)
+	if dir := os.Getenv("VERIF_TMP"); dir != "" {
+		_ = os.Chdir(dir) // the load-loop prelude saves a file: keep it out of the harness directory
+	}
 	if strings.Contains(args[3], "run(") || strings.Contains(args[3], "exec(") {
 		world.Install(&extensions.Config{HasLoad: true, HasSave: true, UnrestrictedIOs: true})
 	}
